@@ -24,9 +24,9 @@ Definition call_table (n : nat) (f : row) : option str :=
   end.
 
 Definition attrs_eqb : attrs -> attrs -> bool := list_eqb (pair_eqb str_eqb lstr_eqb).
-(* attribute values compared as sets (merged features: list(set(v)) has no defined order) *)
+(* attribute values compared up to order but WITH multiplicity (merged features: list(set(v)) has no defined order, and no repeats) *)
 Definition attrs_set_eqb (a b : attrs) : bool :=
-  attrs_eqb (map (fun kv => (fst kv, as_set (snd kv))) a) (map (fun kv => (fst kv, as_set (snd kv))) b).
+  attrs_eqb (map (fun kv => (fst kv, sort_strs (snd kv))) a) (map (fun kv => (fst kv, sort_strs (snd kv))) b).
 
 Definition row_eqb (vals_as_sets : bool) (a b : row) : bool :=
   str_eqb (r_id a) (r_id b) && str_eqb (r_seqid a) (r_seqid b) && str_eqb (r_source a) (r_source b)
